@@ -8,6 +8,9 @@ CONSTANTS
   Interleave = FALSE
   Cfgs <- CfgsGatedOne
   OraclesFor <- SeedOracles
+  MaxAccts = 0
+  AnswersFor <- AllAnswers
+  Deviation = {}
   ScenLen = 10
   Seeds = {1, 2, 3, 4}
   StartSlots = {2, 3}
@@ -16,6 +19,7 @@ CONSTANTS
   MaxHolds = 99
   Focus = FALSE
   Disjoint = FALSE
+  Tight = FALSE
 INVARIANTS EmitStale
 CONSTRAINT HistBound
 CHECK_DEADLOCK FALSE
